@@ -157,6 +157,7 @@ def check(run):
     _r8(run, mods)
     _r9(run, mods)
     _r10(run, mods)
+    _r11(run, mods)
     from ..cachekey import check_caches
     check_caches(run, list(mods.values()) + [prog.modules['cherab.openadas.install']], 'C06-K')
 
@@ -510,7 +511,15 @@ def _r7(run, mods):
                             and str(c.args[1].value).startswith('w'):
                         run.subject('C06-R7')
                         body_ok = all(isinstance(s, ast.Expr) and isinstance(s.value, ast.Call) and dotted(s.value.func) == 'json.dump' for s in w.body)
-                        if body_ok:
+                        # what is dumped is a finished object: building or converting it inside the block can still raise after the truncation
+                        plain = all(isinstance(s.value.args[0], ast.Name) or (isinstance(s.value.args[0], ast.Call) and isinstance(s.value.args[0].func, ast.Attribute)
+                                    and s.value.args[0].func.attr == 'freeze' and isinstance(s.value.args[0].func.value, ast.Name) and not s.value.args[0].args)
+                                    for s in w.body) if body_ok else False
+                        if body_ok and not plain:
+                            run.fail('C06-R7', '%s|%s|write-block-computes' % (mi.name, fname), mi.relpath, w.lineno,
+                                     '%s builds or converts the dumped object inside the "w" block (%s): a conversion that raises there leaves a truncated file '
+                                     'and destroys the keys stored before' % (fname, norm(w.body[0].value.args[0])[:60]))
+                        elif body_ok:
                             run.ok('C06-R7', '%s.%s write block' % (mname, fname), norm(w.body[0])[:60], sample=False)
                         else:
                             run.fail('C06-R7', '%s|%s|write-block' % (mi.name, fname), mi.relpath, w.lineno,
@@ -665,6 +674,30 @@ def _r10(run, mods):
     run.floor('C06-R10', 10)
 
 
+# ------------------------------------------------------------------------------------------ R11
+def _r11(run, mods):
+    """A getter reads the file every time: a memoised getter (functools.lru_cache / cache, or a module-level dict of results) returns what an
+    earlier read saw, so after add/update the last write no longer wins -- unless every writer of the module clears the memo."""
+    run.describe('C06-R11', 'repository getters are not memoised across writes (no lru_cache / cache without cache_clear in every writer)')
+    n = 0
+    for mname, mi in mods.items():
+        clears = {dotted(c.func) for fn in mi.functions.values() for c in ast.walk(fn) if isinstance(c, ast.Call) and (dotted(c.func) or '').endswith('.cache_clear')}
+        for fname, fn in sorted(mi.functions.items()):
+            if not fname.startswith(('get_', '_get')):
+                continue
+            n += 1
+            run.subject('C06-R11')
+            decos = [dotted(d.func if isinstance(d, ast.Call) else d) or '' for d in fn.decorator_list]
+            memo = [d for d in decos if d.split('.')[-1] in ('lru_cache', 'cache', 'memoize', 'cached')]
+            if memo and ('%s.cache_clear' % fname) not in clears:
+                run.fail('C06-R11', '%s|%s|memoised' % (mi.name, fname), mi.relpath, fn.lineno,
+                         '%s is wrapped in %s and no writer clears the cache: a read after a later add/update of the same key returns the value of the '
+                         'first read, the last write no longer wins' % (fname, memo[0]))
+            else:
+                run.ok('C06-R11', '%s.%s' % (mname, fname), 'reads the file on every call', sample=False)
+    run.floor('C06-R11', 12)
+
+
 # ------------------------------------------------------------------------------------------ R8
 def _r8(run, mods):
     run.describe('C06-R8', 'encode_transition: both levels through str(.).lower(), upper level first')
@@ -699,6 +732,9 @@ _BE = REPO_DIR + 'beam/emission.py'
 _BC = REPO_DIR + 'beam/cx.py'
 _U = REPO_DIR + 'utility.py'
 MUTANTS = [
+    dict(name='wavelength-getter-memoised', file=REPO_DIR + 'wavelength.py', find="def get_wavelength(", replace="@functools.lru_cache(maxsize=None)\ndef get_wavelength(", expect='C06-R11'),
+    dict(name='stopping-record-converted-inside-write-block', file=REPO_DIR + 'beam/stopping.py', find="        json.dump(rate, f, indent=2, sort_keys=True)",
+         replace="        json.dump({k: (v if isinstance(v, list) else float(v)) for k, v in rate.items()}, f, indent=2, sort_keys=True)", occurrence=0, of=1, expect='C06-R7'),
     dict(name='pec-content-created-once-for-all-files', file=REPO_DIR + 'pec.py', edits=[
         dict(file=REPO_DIR + 'pec.py', find="                try:\n                    with open(path, 'r') as f:\n                        content = RecursiveDict.from_dict(json.load(f))\n                except FileNotFoundError:\n                    content = RecursiveDict()\n",
              replace="                if os.path.isfile(path):\n                    with open(path, 'r') as f:\n                        content = RecursiveDict.from_dict(json.load(f))\n"),
